@@ -289,6 +289,31 @@ pub fn gen_data(r: &Rng, with_offset: bool) -> TMsg {
     TMsg::Data { p: r.chance(1, 2), len: if has_len { Some(total as u16) } else { None }, tid: r.u16x(), sid: r.u16x(), nsnr, off, data }
 }
 
+/// a data message as a caller may build it: the Length field absent, true, off by a little, or anything at all
+/// (the encoder writes what it is given), the Offset Size field likewise
+pub fn gen_data_free(r: &Rng) -> TMsg {
+    let mut m = gen_data(r, true);
+    if let TMsg::Data { len, off, data, .. } = &mut m {
+        match r.below(6) {
+            0 => *len = Some(r.u16x()),
+            1 => *len = Some(len.unwrap_or(8).wrapping_add(*r.pick(&[1u16, 2, 0xffff, 0xfffe, 16]))),
+            2 => *len = Some(*r.pick(&[0u16, 1, 6, 8, 0xffff])),
+            3 => {
+                if off.is_some() {
+                    *off = Some(r.u16x());
+                }
+            }
+            4 => {
+                if r.chance(1, 3) {
+                    data.clear();
+                }
+            }
+            _ => {}
+        }
+    }
+    m
+}
+
 /// Images for the decoder streams are assembled by the generator itself (flag word, length fields,
 /// AVP headers); only the value octets of an AVP come from the crate's per-type writers.  A defect in
 /// the crate's framing code therefore cannot silently turn the "valid" inputs into rejected ones.
@@ -557,6 +582,15 @@ fn data_image_noncanonical(r: &Rng) -> Vec<u8> {
 // ---------------------------------------------------------------- bad records (C15, C20)
 
 /// an individually undecodable record and the error it yields
+/// flag octet of a non-hidden record: usually M alone, often M clear, sometimes reserved bits as well
+pub fn mflag(r: &Rng) -> u8 {
+    match r.below(4) {
+        0 | 1 => 1,
+        2 => 0,
+        _ => r.next() as u8 & 0x3d,
+    }
+}
+
 pub fn bad_record(r: &Rng, allow_mt: bool) -> (Vec<u8>, String) {
     loop {
         match r.below(8) {
@@ -564,11 +598,11 @@ pub fn bad_record(r: &Rng, allow_mt: bool) -> (Vec<u8>, String) {
                 // truncated fixed field
                 let attr = *r.pick(&[1u16, 2, 3, 4, 5, 6, 9, 10, 12, 13, 14, 15, 16, 17, 18, 19, 24, 25, 29, 32, 34, 35, 36, 38]);
                 let l = r.below(min_len(attr));
-                return (record(1, 0, attr, &r.bytes(l)), format!("IncompleteAVP({})", attr));
+                return (record(mflag(r), 0, attr, &r.bytes(l)), format!("IncompleteAVP({})", attr));
             }
             1 => {
                 let attr = *r.pick(&[7u16, 8, 11, 21, 22, 23, 26, 27, 28, 30, 31, 33, 37]);
-                return (record(1, 0, attr, &[]), format!("IncompleteAVP({})", attr));
+                return (record(mflag(r), 0, attr, &[]), format!("IncompleteAVP({})", attr));
             }
             2 => {
                 let attr = *r.pick(&[8u16, 21, 22, 23]);
@@ -582,19 +616,19 @@ pub fn bad_record(r: &Rng, allow_mt: bool) -> (Vec<u8>, String) {
                 if std::str::from_utf8(&p).is_ok() {
                     continue;
                 }
-                return (record(1, 0, attr, &p), format!("InvalidUtf8({})", attr));
+                return (record(mflag(r), 0, attr, &p), format!("InvalidUtf8({})", attr));
             }
             3 => {
                 let attr = *r.pick(&[20u16, 40, 41, 255, 256, 0x8000, 0xFFFF, 40 + r.below(65000) as u16]);
                 let n = r.below(12);
-                return (record(1, 0, attr, &r.bytes(n)), format!("UnknownAvp({})", attr));
+                return (record(mflag(r), 0, attr, &r.bytes(n)), format!("UnknownAvp({})", attr));
             }
             4 => {
                 if !allow_mt {
                     continue;
                 }
                 let c = *r.pick(&[0u16, 5, 13, 17, 18, 255, 256, 0xFFFF, 17 + r.below(60000) as u16]);
-                return (record(1, 0, 0, &c.to_be_bytes()), format!("UnknownMessageType({})", c));
+                return (record(mflag(r), 0, 0, &c.to_be_bytes()), format!("UnknownMessageType({})", c));
             }
             5 => {
                 let et = *r.pick(&[9u16, 10, 255, 256, 0xFFFF, 9 + r.below(60000) as u16]);
@@ -603,7 +637,7 @@ pub fn bad_record(r: &Rng, allow_mt: bool) -> (Vec<u8>, String) {
                 if r.chance(1, 2) {
                     p.extend(utf8(r, 8));
                 }
-                return (record(1, 0, 1, &p), format!("InvalidResultCodeErrorType({})", et));
+                return (record(mflag(r), 0, 1, &p), format!("InvalidResultCodeErrorType({})", et));
             }
             6 => {
                 let v = *r.pick(&[1u16, 9, 311, 0xFFFF, 1 + r.below(65534) as u16]);
@@ -618,10 +652,10 @@ pub fn bad_record(r: &Rng, allow_mt: bool) -> (Vec<u8>, String) {
                 if r.chance(1, 2) {
                     let mut p = vec![0, 1, 0, 2];
                     p.extend_from_slice(&[0x61, 0xff]);
-                    return (record(1, 0, 1, &p), "InvalidUtf8(1)".into());
+                    return (record(mflag(r), 0, 1, &p), "InvalidUtf8(1)".into());
                 } else {
                     let p = vec![0, 1, 2, 0xc0, 0x61];
-                    return (record(1, 0, 12, &p), "InvalidUtf8(12)".into());
+                    return (record(mflag(r), 0, 12, &p), "InvalidUtf8(12)".into());
                 }
             }
         }
@@ -634,7 +668,11 @@ fn good_record(r: &Rng) -> Vec<u8> {
         if r.chance(1, 10) {
             k = "Hidden";
         }
-        if let Some(b) = encode_avp(&gen_avp_kind(r, k, false)) {
+        if let Some(mut b) = encode_avp(&gen_avp_kind(r, k, false)) {
+            // the M bit and the reserved flag bits are not the decoder's business: any of them, on any kind
+            if r.chance(1, 3) {
+                b[0] = (b[0] & 0xc2) | (mflag(r) & 0x3d);
+            }
             return b;
         }
     }
@@ -653,6 +691,135 @@ impl Out {
     fn push(&mut self, s: String) {
         self.lines.push(s);
     }
+}
+
+/// Values chosen by rule, not by chance: for every AVP kind each field at its boundaries and with every single
+/// bit set, every value of the small enumerated fields, every presence combination of the optional parts with
+/// texts of 1..4 octets.  (`empty_text`: also `Some("")`, which the encoder accepts but which does not survive
+/// a round trip — only for the streams whose property does not exclude it.)
+pub fn systematic_avps(empty_text: bool) -> Vec<TAvp> {
+    let mut v: Vec<TAvp> = vec![];
+    let a = |k: &str, args: Vec<String>| TAvp::new(k, args);
+    let u16s: Vec<u16> = {
+        let mut x = vec![0u16, 1, 0x7f, 0x80, 0xff, 0x100, 0x7fff, 0x8000, 0xfffe, 0xffff];
+        x.extend((0..16).map(|b| 1u16 << b));
+        x
+    };
+    let u32s: Vec<u32> = {
+        let mut x = vec![0u32, 1, 0xff, 0x100, 0xffff, 0x1_0000, 0x7fff_ffff, 0x8000_0000, 0xffff_ffff, 0x0102_0304];
+        x.extend((0..32).map(|b| 1u32 << b));
+        x
+    };
+    for k in U16_KINDS.iter() {
+        for x in u16s.iter() {
+            v.push(a(k, vec![x.to_string()]));
+        }
+    }
+    for k in U32_KINDS.iter() {
+        for x in u32s.iter() {
+            v.push(a(k, vec![x.to_string()]));
+        }
+    }
+    for k in MASK_KINDS.iter() {
+        for x in u32s.iter() {
+            v.push(a(k, vec![x.to_string()]));
+            v.push(a(k, vec![(!x).to_string()]));
+        }
+    }
+    for b in 0..64 {
+        v.push(a("TieBreaker", vec![(1u64 << b).to_string()]));
+    }
+    v.push(a("TieBreaker", vec!["0".into()]));
+    v.push(a("TieBreaker", vec![u64::MAX.to_string()]));
+    v.push(a("TieBreaker", vec![0x0102_0304_0506_0708u64.to_string()]));
+    for (x, y) in [(0u8, 0u8), (1, 0), (0, 1), (255, 255), (0, 255), (255, 0), (1, 2)] {
+        v.push(a("ProtocolVersion", vec![x.to_string(), y.to_string()]));
+    }
+    let texts: Vec<&[u8]> = vec![b"x", b"OK", b"NCC", b"four", b"fives", "\u{20ac}".as_bytes(), "\u{fffd}".as_bytes()];
+    let mut msgs: Vec<String> = vec!["-".to_string()];
+    if empty_text {
+        msgs.push(String::new());
+    }
+    msgs.extend(texts.iter().map(|t| hex(t)));
+    for code in [0u16, 1, 2, 7, 11, 12, 255, 256, 65535] {
+        v.push(a("ResultCode", vec![code.to_string(), "-".into(), "-".into()]));
+        for e in ERROR_TYPES.iter() {
+            for m in msgs.iter() {
+                if code < 3 || m == "-" || code == 65535 {
+                    v.push(a("ResultCode", vec![code.to_string(), format!("{:?}", e), m.clone()]));
+                }
+            }
+        }
+    }
+    for code in [0u16, 1, 16, 255, 256, 65535] {
+        for msg in [0u8, 1, 127, 128, 255] {
+            for m in msgs.iter() {
+                if code == 16 || msg == 0 || m == "-" {
+                    v.push(a("Q931CauseCode", vec![code.to_string(), msg.to_string(), m.clone()]));
+                }
+            }
+        }
+    }
+    let pat = |n: usize, i: usize, bit: u8| -> Vec<u8> {
+        let mut b = vec![0u8; n];
+        b[i] = bit;
+        b
+    };
+    for i in 0..16 {
+        v.push(a("ChallengeResponse", vec![hex(&pat(16, i, 0x80))]));
+        v.push(a("ChallengeResponse", vec![hex(&pat(16, i, 0x01))]));
+    }
+    v.push(a("ChallengeResponse", vec![hex(&[0xffu8; 16])]));
+    v.push(a("ChallengeResponse", vec![hex(&(1..=16).collect::<Vec<u8>>())]));
+    for k in ["RandomVector", "PhysicalChannelId"] {
+        for i in 0..4 {
+            for bit in [0x01u8, 0x80, 0xff] {
+                v.push(a(k, vec![hex(&pat(4, i, bit))]));
+            }
+        }
+        v.push(a(k, vec![hex(&[1u8, 2, 3, 4])]));
+    }
+    for x in [0u8, 1, 127, 128, 255] {
+        v.push(a("ProxyAuthenId", vec![x.to_string()]));
+    }
+    for i in 0..6 {
+        for x in [1u32, 0x8000_0000, 0xffff_ffff, 0x0102_0304] {
+            let mut f = vec!["0".to_string(); 6];
+            f[i] = x.to_string();
+            v.push(a("CallErrors", f));
+        }
+    }
+    v.push(a("CallErrors", (1..=6u32).map(|x| (x * 0x0101_0101).to_string()).collect()));
+    for i in 0..4 {
+        for bit in [0x01u8, 0x80] {
+            v.push(a("Accm", vec![hex(&pat(4, i, bit)), hex(&[0u8; 4])]));
+            v.push(a("Accm", vec![hex(&[0u8; 4]), hex(&pat(4, i, bit))]));
+        }
+    }
+    v.push(a("Accm", vec![hex(&[1u8, 2, 3, 4]), hex(&[5u8, 6, 7, 8])]));
+    v.push(a("SequencingRequired", vec![]));
+    for k in BYTE_KINDS.iter() {
+        for b in [vec![0u8], vec![0xff], vec![0, 0], vec![1, 2, 3], vec![0xffu8; 4], (0..=255u8).collect::<Vec<u8>>()] {
+            v.push(a(k, vec![hex(&b)]));
+        }
+    }
+    for k in STR_KINDS.iter() {
+        for t in texts.iter() {
+            v.push(a(k, vec![hex(t)]));
+        }
+        v.push(a(k, vec![hex(&[0x61u8; 250])]));
+        v.push(a(k, vec![hex(&[0x61u8; 251])]));
+    }
+    for m in MESSAGE_TYPES.iter() {
+        v.push(a("MessageType", vec![format!("{:?}", m)]));
+    }
+    for p in PROXY_TYPES.iter() {
+        v.push(a("ProxyAuthenType", vec![format!("{:?}", p)]));
+    }
+    for (t, l) in [(0u16, 0usize), (7, 1), (65535, 16), (1, 250), (39, 251)] {
+        v.push(a("Hidden", vec![t.to_string(), if l == 0 { ".".to_string() } else { hex(&vec![0x5au8; l]) }]));
+    }
+    v
 }
 
 fn decode_stream(r: &Rng, out: &mut Out, n: usize, with_leaf: bool) {
@@ -782,6 +949,9 @@ fn decode_stream(r: &Rng, out: &mut Out, n: usize, with_leaf: bool) {
 }
 
 fn c03_stream(r: &Rng, out: &mut Out, n: usize, thorough: bool) {
+    for t in systematic_avps(false) {
+        out.push(format!("rta {}", t.render()));
+    }
     // every kind: extremes and the payload-length ladder
     for k in ALL_KINDS.iter() {
         for _ in 0..(if thorough { 40 } else { 12 }) {
@@ -887,13 +1057,19 @@ fn enc_stream(r: &Rng, out: &mut Out, n: usize, prefixes: bool, oversize: bool) 
         } else if i % 3 == 1 {
             out.push(format!("enc {} {}", hex(&p), gen_control(r, 8, i % 9 == 1).render()));
         } else {
-            out.push(format!("enc {} {}", hex(&p), gen_data(r, true).render()));
+            let d = if i % 2 == 0 { gen_data(r, true) } else { gen_data_free(r) };
+            out.push(format!("enc {} {}", hex(&p), d.render()));
         }
     }
     if prefixes {
-        let p = r.bytes(65536);
-        out.push(format!("enc {} {}", hex(&p), gen_control(r, 4, false).render()));
-        out.push(format!("enca {} {}", hex(&p), gen_avp(r, false).render()));
+        // a writer that already holds a lot: around the largest UDP payload (65507), the 16-bit boundary and beyond
+        for pl in [65400usize, 65500, 65507, 65535, 65536, 65537, 70000, 131072] {
+            let p = r.bytes(pl);
+            out.push(format!("enc {} {}", hex(&p), gen_control(r, 4, false).render()));
+            out.push(format!("enca {} {}", hex(&p), gen_avp(r, false).render()));
+            out.push(format!("enc {} {}", hex(&p), gen_data(r, true).render()));
+            out.push(format!("enc {} {}", hex(&p), gen_data_free(r).render()));
+        }
     }
     if oversize {
         for l in 1005..=1030usize {
@@ -962,6 +1138,29 @@ fn payload_len(t: &TAvp) -> usize {
 }
 
 fn hide_stream(r: &Rng, out: &mut Out, n: usize, op: &str) {
+    // by rule: value lengths 1..=130 (one to nine 16-octet chunks, every remainder), length paddings that
+    // leave the total just below, at and above a chunk boundary, secrets of every length 0..=70 (the MD5 block
+    // boundaries of secret+chunk and of type+secret+vector lie in there) and two long ones
+    let mut j = 0usize;
+    for len in 1..=130usize {
+        for lp in [0usize, 1, 15, 16] {
+            let kind = BYTE_KINDS[j % 9];
+            let sl = if j % 37 == 36 { 200 } else if j % 41 == 40 { 128 } else { j % 71 };
+            let t = TAvp::new(kind, vec![hex(&r.bytes(len))]);
+            let ap = r.bytes(16);
+            out.push(format!("{} {} {} {} {} {}", op, t.render(), hex(&r.bytes(sl)), hex(&r.bytes(4)), hex(&r.bytes(lp)), hex(&ap)));
+            j += 1;
+        }
+    }
+    for (i, t) in systematic_avps(false).iter().enumerate() {
+        if t.kind == "Hidden" {
+            continue;
+        }
+        if n > 100000 || i % 4 == 0 {
+            let (s, rv, lp, ap) = hide_args(r, payload_len(t));
+            out.push(format!("{} {} {} {} {} {}", op, t.render(), hex(&s), hex(&rv), hex(&lp), hex(&ap)));
+        }
+    }
     for i in 0..n {
         let k = ALL_KINDS[i % 39];
         let t = if i % 97 == 96 { gen_avp_kind(r, "Hidden", false) } else { gen_avp_kind(r, k, i % 13 == 0) };
@@ -970,8 +1169,87 @@ fn hide_stream(r: &Rng, out: &mut Out, n: usize, op: &str) {
     }
 }
 
+/// RFC 2661 4.3 applied to a plaintext that is already a multiple of 16 octets (the generator's own
+/// rendering, so that a ciphertext can be made to decrypt to any chosen octets)
+fn hide_raw(attr: u16, secret: &[u8], rv: &[u8], plain: &[u8]) -> Vec<u8> {
+    let mut buf = attr.to_be_bytes().to_vec();
+    buf.extend_from_slice(secret);
+    buf.extend_from_slice(rv);
+    let mut key = md5::compute(&buf).0;
+    let mut out = vec![];
+    for chunk in plain.chunks(16) {
+        let c: Vec<u8> = chunk.iter().zip(key.iter()).map(|(a, b)| a ^ b).collect();
+        let mut b2 = secret.to_vec();
+        b2.extend_from_slice(&c);
+        key = md5::compute(&b2).0;
+        out.extend(c);
+    }
+    out
+}
+
+/// a `reveal` case whose hidden value decrypts to the original-length field `6 + payload + dl` (dl = 0: consistent),
+/// the payload, and padding up to a chunk boundary (plus `extra` whole chunks)
+fn crafted_reveal(r: &Rng, out: &mut Out, attr: u16, payload: &[u8], dl: isize, extra: usize) {
+    let s = secret(r);
+    let rv = r.bytes(4);
+    let want = (6 + payload.len() as isize + dl).max(0) as usize;
+    let mut plain = (want as u16).to_be_bytes().to_vec();
+    plain.extend_from_slice(payload);
+    let pad = (16 - plain.len() % 16) % 16 + 16 * extra;
+    plain.extend(r.bytes(pad));
+    if plain.len() > 1017 {
+        return;
+    }
+    out.push(format!("reveal Hidden({},{}) {} {}", attr, hex(&hide_raw(attr, &s, &rv, &plain)), hex(&s), hex(&rv)));
+}
+
+/// what an inner decoder can be handed once the chain is undone: for every attribute number 0..=41 every payload
+/// length around the kind's minimum, every message-type / error-type / proxy-type code around the assigned ranges,
+/// the undecodable payloads of `bad_record`, valid payloads of every kind, and each of them also with the
+/// original-length field one off
+fn reveal_inner_stream(r: &Rng, out: &mut Out, thorough: bool) {
+    for attr in 0..=41u16 {
+        let m = min_len(attr);
+        for l in 0..=(m + 3).min(40) {
+            crafted_reveal(r, out, attr, &r.bytes(l), 0, 0);
+            crafted_reveal(r, out, attr, &vec![0u8; l], 0, r.below(2));
+        }
+    }
+    for code in (0..=40u16).chain([255, 256, 0x0100, 0x1100, 0x7fff, 0x8000, 0xffff]) {
+        crafted_reveal(r, out, 0, &code.to_be_bytes(), 0, 0);
+        crafted_reveal(r, out, 29, &code.to_be_bytes(), 0, 0);
+        let mut p = vec![0, 1];
+        p.extend_from_slice(&code.to_be_bytes());
+        crafted_reveal(r, out, 1, &p, 0, 0);
+        p.extend_from_slice(b"why");
+        crafted_reveal(r, out, 1, &p, 0, 0);
+    }
+    for _ in 0..(if thorough { 6000 } else { 600 }) {
+        let (rec, _) = bad_record(r, true);
+        if rec.len() >= 6 && rec[2] == 0 && rec[3] == 0 && rec[0] & 2 == 0 {
+            let attr = ((rec[4] as u16) << 8) | rec[5] as u16;
+            crafted_reveal(r, out, attr, &rec[6..], 0, 0);
+        }
+        let g = good_record(r);
+        if g[0] & 2 == 0 {
+            let attr = ((g[4] as u16) << 8) | g[5] as u16;
+            let dl = *r.pick(&[0isize, 0, 0, -1, 1, -2]);
+            crafted_reveal(r, out, attr, &g[6..], dl, r.below(2));
+        }
+    }
+    for (i, t) in systematic_avps(false).iter().enumerate() {
+        if t.kind != "Hidden" && (thorough || i % 3 == 0) {
+            if let Some(rec) = encode_avp(t) {
+                let attr = ((rec[4] as u16) << 8) | rec[5] as u16;
+                crafted_reveal(r, out, attr, &rec[6..], 0, 0);
+            }
+        }
+    }
+}
+
 /// C13: ciphertexts built so that the decrypted length field takes chosen values
 fn reveal_stream(r: &Rng, out: &mut Out, n: usize) {
+    reveal_inner_stream(r, out, n > 100000);
     for i in 0..n {
         let t: u16 = if r.chance(4, 5) { *r.pick(&[0u16, 1, 5, 7, 8, 12, 13, 34, 35, 39, 20, 40]) } else { r.u16x() };
         let s = secret(r);
@@ -1436,10 +1714,13 @@ fn c20_stream(r: &Rng, out: &mut Out, n: usize, thorough: bool) {
                 }
                 v.extend_from_slice(&x.to_be_bytes());
                 v.extend(r.bytes(dl));
-                // the data-header minimum must be met for the offset to be the single fault
-                if dl >= 2 || true {
-                    out.push(format!("sf 111 {} InvalidOffset({})", hex(&v), x));
-                }
+                out.push(format!("sf 111 {} InvalidOffset({})", hex(&v), x));
+                // the same fault in a message that also carries Length (holding the true size of the datagram)
+                let total = (v.len() + 2) as u16;
+                let mut v2 = (w | 0x0200).to_be_bytes().to_vec();
+                v2.extend_from_slice(&total.to_be_bytes());
+                v2.extend_from_slice(&v[2..]);
+                out.push(format!("sf 111 {} InvalidOffset({})", hex(&v2), x));
             }
             5 => {
                 let et = *r.pick(&[9u16, 10, 255, 256, 0xFFFF, 9 + r.below(60000) as u16]);
@@ -1602,8 +1883,16 @@ fn c19_stream(r: &Rng, out: &mut Out, n: usize) {
                 }
                 out.push(format!("hr {} {} {} {} {}", t.render(), hex(&s), hex(&rv), hex(&lp), hex(&ap)));
             }
-            _ => out.push(format!("enc . {}", gen_data(r, true).render())),
+            _ => out.push(format!("enc . {}", (if i % 12 == 5 { gen_data(r, true) } else { gen_data_free(r) }).render())),
         }
+    }
+    // nothing may reach fd 1 / fd 2 from any entry point: the other operations once each over a varied sample
+    for _ in 0..(n / 20) {
+        out.push(format!("rt {}", gen_data_free(r).render()));
+        out.push(format!("fix {} {}", opts(r), hex(&data_image_noncanonical(r))));
+        out.push(format!("fix {} {}", opts(r), hex(&noncanonical(r))));
+        let img = mutate(r, &valid_image(r, false));
+        out.push(format!("avps {}", hex(&img[12.min(img.len())..])));
     }
 }
 
@@ -1632,6 +1921,9 @@ pub fn generate(prop: &str, tier: &str, seed: u64) -> Vec<String> {
             text_stream(&r, &mut out, n(4000, 80000));
         }
         "C06" => {
+            for t in systematic_avps(true) {
+                out.push(format!("enca . {}", t.render()));
+            }
             enc_stream(&r, &mut out, n(15000, 300000), false, false);
             for m in MESSAGE_TYPES.iter() {
                 out.push(format!("enca . MessageType({:?})", m));
@@ -1651,6 +1943,9 @@ pub fn generate(prop: &str, tier: &str, seed: u64) -> Vec<String> {
         "C07" => {
             // every kind several times, and every value of the small enumerated fields: a length that is
             // wrong for one value of one kind must not depend on the random stream happening to draw it
+            for t in systematic_avps(true) {
+                out.push(format!("enca . {}", t.render()));
+            }
             for k in ALL_KINDS.iter() {
                 for _ in 0..(if thorough { 60 } else { 16 }) {
                     out.push(format!("enca . {}", gen_avp_kind(&r, k, true).render()));
@@ -1679,12 +1974,35 @@ pub fn generate(prop: &str, tier: &str, seed: u64) -> Vec<String> {
         }
         "C08" => c08_stream(&r, &mut out, n(20000, 400000)),
         "C09" => {
+            for (i, t) in systematic_avps(true).iter().enumerate() {
+                if thorough || i % 3 == 0 {
+                    out.push(format!("enca {} {}", hex(&r.bytes(1 + i % 5)), t.render()));
+                }
+            }
             enc_stream(&r, &mut out, n(12000, 250000), true, false);
             for _ in 0..n(2000, 40000) {
                 let k = 1 + r.below(8);
                 let ms: Vec<String> = (0..k)
                     .map(|_| if r.chance(1, 2) { gen_control(&r, 4, false).render() } else { gen_data(&r, false).render() })
                     .collect();
+                out.push(format!("seqm {}", ms.join("|")));
+            }
+            // long runs into one writer: the total passes 65507, 65536 and 131072 octets
+            for round in 0..n(2, 6) {
+                let mut ms: Vec<String> = vec![];
+                let mut total = 0usize;
+                while total < 140000 {
+                    let m = if (ms.len() + round) % 3 == 0 {
+                        TMsg::Control { len: 0, tid: r.u16x(), sid: r.u16x(), ns: r.u16x(), nr: r.u16x(), avps: vec![TAvp::new("MessageType", vec!["Hello".into()]), TAvp::new("Challenge", vec![hex(&r.bytes(900 + r.below(100)))])] }
+                    } else {
+                        let dl = 1200 + r.below(250);
+                        let nsnr = if r.chance(1, 2) { Some((r.u16x(), r.u16x())) } else { None };
+                        let total = data_header_len(true, nsnr.is_some(), false) + dl;
+                        TMsg::Data { p: r.chance(1, 2), len: Some(total as u16), tid: r.u16x(), sid: r.u16x(), nsnr, off: None, data: r.bytes(dl) }
+                    };
+                    total += encode_msg(&m).map(|b| b.len()).unwrap_or(0);
+                    ms.push(m.render());
+                }
                 out.push(format!("seqm {}", ms.join("|")));
             }
         }
@@ -1719,6 +2037,12 @@ pub fn generate(prop: &str, tier: &str, seed: u64) -> Vec<String> {
                             break;
                         }
                     }
+                }
+            }
+            for t in systematic_avps(false) {
+                if let Some(rec) = encode_avp(&t) {
+                    let img = assemble(0x1320, 1, 2, 3, 4, &[mt_record(&r), rec]);
+                    out.push(format!("fix 111 {}", hex(&img)));
                 }
             }
             for i in 0..n(25000, 500000) {
